@@ -4,22 +4,24 @@ copies /tmp/wt/out-Cxx/mK/{patch.diff,demo.py,notes.md,suite.txt} to /verif/seed
 import json, shutil, sys, subprocess
 from pathlib import Path
 prop, m, needs, verdict, note = sys.argv[1:6]
-src = Path(f"/tmp/wt/out-{prop}/{m}")
-dst = Path(f"/verif/seeded/{prop}-{m}")
+import os
+rnd = os.environ.get("SEED_ROUND", "")  # "" = first round (/tmp/wt/out-Cxx), "2" = second round (/tmp/wt/out2-Cxx)
+src = Path(f"/tmp/wt/out{rnd}-{prop}/{m}")
+dst = Path(f"/verif/seeded/{prop}-{'r' + rnd if rnd else ''}{m}")
 dst.mkdir(parents=True, exist_ok=True)
 for f in ("patch.diff", "demo.py", "notes.md"):
     shutil.copy(src / f, dst / f)
 suite = (src / "suite.txt").read_text() if (src / "suite.txt").exists() else ""
 line = [l for l in suite.split("\n") if " passed" in l]
 meta = dict(
-    id=f"{prop}-{m}", property=prop, breaks=prop, needs_to_manifest=needs,
+    id=dst.name, property=prop, breaks=prop, needs_to_manifest=needs,
     origin="independent sub-agent given only the property text and a scratch worktree",
     confirmed=dict(
         demo="tools/seedtest.py: demo.py exits 0 on a clean scratch worktree of /repo HEAD and 1 with patch.diff applied",
         existing_tests=(line[-1].strip() if line else "see notes.md") + " (whole suite, pytest -n 5, scratch worktree with the patch; the 7 failures need the network and fail on the clean tree too)",
     ),
     check_result=verdict, check_note=note,
-    ran=["python3 tools/seedtest.py %s /tmp/wt/out-%s/%s --tier quick" % (prop, prop, m), "/tmp/wt/msuite.sh (whole test-suite with the patch applied)"],
+    ran=["python3 tools/seedtest.py %s %s --tier quick" % (prop, src), "/tmp/wt/msuite.sh (whole test-suite with the patch applied)"],
 )
 (dst / "meta.json").write_text(json.dumps(meta, indent=1))
 print("kept", dst)
